@@ -447,7 +447,15 @@ def statement_bounds(masked: str, f: Fn, needle_idx: int):
     depth = 0
     while k > f.sig_end:
         ch = masked[k]
-        if ch in ")]}":
+        if ch == "}" and depth == 0:
+            # a block statement ends here, unless our statement continues it (`else`, method chain)
+            j = k + 1
+            while masked[j].isspace():
+                j += 1
+            if not (masked.startswith("else", j) or masked[j] in ".?"):
+                break
+            depth += 1
+        elif ch in ")]}":
             depth += 1
         elif ch in "([{":
             if depth == 0:
